@@ -121,9 +121,7 @@ pub fn full_derives(d: &Decl) -> Vec<Tr> {
     match d.generic {
         // `impl<T> TryFrom<T> for W<T>` / `impl<T> From<W<T>> for T` are impossible in Rust (coherence)
         Generic::T => t.retain(|x| !matches!(x, Tr::TryFrom | Tr::From | Tr::Into)),
-        // Into with *bounded* type parameters does not compile on the unchanged tree (C08 finding)
-        Generic::VecT => t.retain(|x| !matches!(x, Tr::Into)),
-        Generic::None => {}
+        Generic::VecT | Generic::None => {}
     }
     if d.default.is_some() {
         t.push(Tr::Default);
@@ -138,6 +136,20 @@ pub fn full_derives(d: &Decl) -> Vec<Tr> {
 
 pub fn with_full(mut d: Decl) -> Decl {
     d.derives = full_derives(&d);
+    d
+}
+
+/// the full derive set with `TryFrom` (error type `Infallible` when nothing is validated) in place of `From`
+pub fn with_full_tryfrom(mut d: Decl) -> Decl {
+    let mut t = full_derives(&d);
+    for x in t.iter_mut() {
+        if *x == Tr::From {
+            *x = Tr::TryFrom;
+        }
+    }
+    t.sort();
+    t.dedup();
+    d.derives = t;
     d
 }
 
@@ -185,6 +197,7 @@ pub fn catalogue() -> Vec<Decl> {
     floats(&mut out);
     strings(&mut out);
     others(&mut out);
+    infallible_try_from(&mut out);
     out
 }
 
@@ -719,6 +732,32 @@ fn floats(out: &mut Vec<Decl>) {
                 out.push(with_derives(d, &[Tr::Debug, Tr::Arbitrary]));
             }
         }
+        // narrow and degenerate two-sided ranges at values that are not dyadic rationals: any rounding in
+        // the generator's interpolation lands outside
+        for (mi, (mag, lo, hi)) in [("pinned", 0.1, 0.1), ("pinned-neg", -36.6, -36.6), ("narrow", 0.7, 0.70001), ("narrow-neg", -0.30001, -0.3), ("narrow-large", 16777216.0, 16777220.0), ("ulp", 1.0, 1.0000001)]
+            .into_iter()
+            .enumerate()
+        {
+            let combos: Vec<(&str, Vec<ValSpec>)> = vec![
+                ("ge+le", vec![ValSpec::GreaterEq(lit_f(lo)), ValSpec::LessEq(lit_f(hi))]),
+                ("le+ge", vec![ValSpec::LessEq(lit_f(hi)), ValSpec::GreaterEq(lit_f(lo))]),
+                ("g+le", vec![ValSpec::Greater(lit_f(lo)), ValSpec::LessEq(lit_f(hi))]),
+                ("ge+l", vec![ValSpec::GreaterEq(lit_f(lo)), ValSpec::Less(lit_f(hi))]),
+                ("g+l", vec![ValSpec::Greater(lit_f(lo)), ValSpec::Less(lit_f(hi))]),
+            ];
+            for (ci, (name, mut vals)) in combos.into_iter().enumerate() {
+                // equal literal bounds admit a value only when both are inclusive
+                if lo == hi && ci >= 2 {
+                    continue;
+                }
+                let fin = (mi + ci) % 2 == 1;
+                if fin {
+                    vals.push(ValSpec::Finite);
+                }
+                let d = std(Decl::new(inner), vals).tag(&format!("float-arb:{mag}:{name}{}", if fin { ":finite" } else { "" }));
+                out.push(with_derives(d, &[Tr::Debug, Tr::Arbitrary]));
+            }
+        }
         for (name, vals) in [
             ("finite-only", vec![ValSpec::Finite]),
             ("expr-bounds", vec![ValSpec::GreaterEq(expr_f("const", "KA", 5.0)), ValSpec::Less(expr_f("const", "KB", 100.0))]),
@@ -1083,6 +1122,39 @@ fn others(out: &mut Vec<Decl>) {
         out.push(base);
         out.push(tw);
     }
+}
+
+/// declarations without validation deriving `TryFrom` (infallible): bare and sanitize-only, every family
+fn infallible_try_from(out: &mut Vec<Decl>) {
+    let mut k = 0;
+    let mut push = |inner: Inner, sans: Vec<&str>, builtin: Vec<SanSpec>| {
+        let mut d = Decl::new(inner).tag("noval-tryfrom");
+        d.sans = builtin;
+        for n in sans {
+            k += 1;
+            d.sans.push(SanSpec::With(f(n, FN_FORMS[k % FN_FORMS.len()])));
+        }
+        out.push(with_full_tryfrom(d));
+    };
+    for t in [IntTy::U8, IntTy::I16, IntTy::I32, IntTy::U64, IntTy::I128, IntTy::Usize] {
+        push(Inner::Int(t), vec![], vec![]);
+        push(Inner::Int(t), vec!["s_clamp"], vec![]);
+        push(Inner::Int(t), vec!["s_half"], vec![]);
+    }
+    for inner in [Inner::F32, Inner::F64] {
+        push(inner, vec![], vec![]);
+        push(inner, vec!["s_clamp"], vec![]);
+        push(inner, vec!["s_add1"], vec![]);
+    }
+    push(Inner::Str, vec![], vec![]);
+    push(Inner::Str, vec![], vec![SanSpec::Trim, SanSpec::Lower]);
+    push(Inner::Str, vec!["s_appendx"], vec![SanSpec::Trim]);
+    push(Inner::VecI32, vec![], vec![]);
+    push(Inner::VecI32, vec!["s_sort"], vec![]);
+    push(Inner::VecI32, vec!["s_push0"], vec![]);
+    push(Inner::Point, vec![], vec![]);
+    push(Inner::Point, vec!["s_abs"], vec![]);
+    push(Inner::Point, vec!["s_swap"], vec![]);
 }
 
 pub fn permutations(n: usize) -> Vec<Vec<usize>> {
